@@ -418,6 +418,80 @@ theorem rounds_result (cfg : Config) (dec : Reply → Bool) :
         refine ⟨0, r, by simp, ?_, Or.inl ⟨by simpa using hd, hm.symm⟩⟩
         intro j rj hj; omega
 
+/-- Completeness of the END exit: if reply `k` is the first the branch sends to END, all
+    earlier ones went round, and the budget covers the `2k+1` node executions, the run
+    returns that assistant message after exactly `k+1` model calls. -/
+theorem rounds_complete_end (cfg : Config) (dec : Reply → Bool) :
+    ∀ (k : Nat) (script : List Reply) (b : Nat) (h : List Msg) (r : Reply),
+      script[k]? = some r →
+      (∀ (j : Nat) rj, j < k → script[j]? = some rj → Continues cfg dec rj) →
+      dec r = false → 2 * k + 1 ≤ b →
+      (rounds cfg dec script b h).2.2 = .ok r.full ∧
+      (rounds cfg dec script b h).2.1.length = 2 * k + 1 ∧
+      (rounds cfg dec script b h).1.length = k + 1 := by
+  intro k
+  induction k with
+  | zero =>
+    intro script b h r hk _ hd hb
+    cases script with
+    | nil => simp at hk
+    | cons r0 rest =>
+      simp at hk; subst hk
+      cases b with
+      | zero => omega
+      | succ b => simp [rounds, hd]
+  | succ k ih =>
+    intro script b h r hk hpre hd hb
+    cases script with
+    | nil => simp at hk
+    | cons r0 rest =>
+      simp only [List.getElem?_cons_succ] at hk
+      obtain ⟨hd0, ⟨res0, hres0⟩, hid0⟩ := hpre 0 r0 (by omega) (by simp)
+      have hpre' : ∀ (j : Nat) rj, j < k → rest[j]? = some rj → Continues cfg dec rj := by
+        intro j rj hj hjr
+        exact hpre (j + 1) rj (by omega) (by simpa using hjr)
+      obtain ⟨b'', rfl⟩ : ∃ b'', b = b'' + 2 := ⟨b - 2, by omega⟩
+      obtain ⟨h1, h2, h3⟩ := ih rest b'' (h ++ r0.full :: res0) r hk hpre' hd (by omega)
+      simp only [rounds, hd0, if_true, hres0, hid0]
+      simp [h1, h2, h3]
+      omega
+
+/-- Completeness of the return-directly exit. -/
+theorem rounds_complete_direct (cfg : Config) (dec : Reply → Bool) :
+    ∀ (k : Nat) (script : List Reply) (b : Nat) (h : List Msg) (r : Reply) (res : List Msg),
+      script[k]? = some r →
+      (∀ (j : Nat) rj, j < k → script[j]? = some rj → Continues cfg dec rj) →
+      dec r = true → (runTools cfg r.full).2 = .ok res →
+      returnDirectlyId cfg.returnDirectly r.full ≠ "" → 2 * k + 3 ≤ b →
+      (rounds cfg dec script b h).2.2 = directResult (returnDirectlyId cfg.returnDirectly r.full) res ∧
+      (rounds cfg dec script b h).2.1.length = 2 * k + 3 := by
+  intro k
+  induction k with
+  | zero =>
+    intro script b h r res hk _ hd hres hid hb
+    cases script with
+    | nil => simp at hk
+    | cons r0 rest =>
+      simp at hk; subst hk
+      obtain ⟨b'', rfl⟩ : ∃ b'', b = b'' + 3 := ⟨b - 3, by omega⟩
+      have hne : (returnDirectlyId cfg.returnDirectly r0.full != "") = true := by simpa using hid
+      simp [rounds, hd, hres, hne]
+  | succ k ih =>
+    intro script b h r res hk hpre hd hres hid hb
+    cases script with
+    | nil => simp at hk
+    | cons r0 rest =>
+      simp only [List.getElem?_cons_succ] at hk
+      obtain ⟨hd0, ⟨res0, hres0⟩, hid0⟩ := hpre 0 r0 (by omega) (by simp)
+      have hpre' : ∀ (j : Nat) rj, j < k → rest[j]? = some rj → Continues cfg dec rj := by
+        intro j rj hj hjr
+        exact hpre (j + 1) rj (by omega) (by simpa using hjr)
+      obtain ⟨b'', rfl⟩ : ∃ b'', b = b'' + 2 := ⟨b - 2, by omega⟩
+      obtain ⟨h1, h2⟩ := ih rest b'' (h ++ r0.full :: res0) r res hk hpre' hd hres hid (by omega)
+      simp only [rounds, hd0, if_true, hres0, hid0]
+      simp [h1, h2]
+      omega
+
 theorem rounds_evs_le (cfg : Config) (dec : Reply → Bool) :
     ∀ (script : List Reply) (b : Nat) (h : List Msg),
       (rounds cfg dec script b h).2.1.length ≤ b := by
@@ -802,6 +876,32 @@ theorem returnDirectlyId_ne (rd : List String) (m : Msg) (h : returnDirectlyId r
   · cases hf : m.calls.find? (fun c => rd.contains c.name) with
     | none => exact absurd (by simp only [returnDirectlyId, hrd, hf]; rfl) h
     | some c => exact ⟨c, rfl, by simp only [returnDirectlyId, hrd, hf]; rfl⟩
+
+/-- When call ids are non-empty, "no return-directly id recorded" means exactly "no call
+    names a return-directly tool". (An empty id on such a call makes the code treat it as
+    not return-directly: `len(state.ReturnDirectlyToolCallID) > 0` is the flag.) -/
+theorem returnDirectlyId_empty_iff (rd : List String) (m : Msg)
+    (hids : ∀ c ∈ m.calls, c.id ≠ "") :
+    returnDirectlyId rd m = "" ↔ ∀ c ∈ m.calls, c.name ∉ rd := by
+  by_cases hrd : rd.isEmpty = true
+  · have : rd = [] := by simpa using hrd
+    subst this
+    simp [returnDirectlyId]
+  · cases hf : m.calls.find? (fun c => rd.contains c.name) with
+    | none =>
+      have h1 : returnDirectlyId rd m = "" := by simp only [returnDirectlyId, hrd, hf]; rfl
+      simp only [h1, true_iff]
+      intro c hc hin
+      have := List.find?_eq_none.mp hf c hc
+      simp [hin] at this
+    | some c =>
+      have h1 : returnDirectlyId rd m = c.id := by simp only [returnDirectlyId, hrd, hf]; rfl
+      have hmem : c ∈ m.calls := List.mem_of_find?_eq_some hf
+      have hin : c.name ∈ rd := by simpa using List.find?_some hf
+      rw [h1]
+      constructor
+      · intro h; exact absurd h (hids c hmem)
+      · intro h; exact absurd hin (h c hmem)
 
 /-- With pairwise distinct call ids, direct_return hands back the answer to the first call
     of a return-directly tool. -/
